@@ -2,3 +2,4 @@ SPECIFICATION Spec
 CONSTANT EvCodes <- BadEvCodes
 INVARIANT Law
 CHECK_DEADLOCK FALSE
+CONSTANT NPat = 2
